@@ -761,6 +761,17 @@ fn builder_reuse(ctx: &mut Ctx) {
         let own = KK::make(scheme, &secret_from(scheme, OWN));
         let other = KK::make(scheme, &secret_from(scheme, OTHER));
         let pub_of = |label: u64| own_ref(scheme, label).pub_bytes();
+        // Enr::empty(key) is the record the default builder builds
+        match crate::util::guard(|| (Enr::<KK::K>::empty(&own).map(|e| observe(&e)), crate::hist::apply_build::<KK::K>(&[], &own).map(|e| observe(&e)))) {
+            Ok((Ok(Ok(a)), Ok(Ok(b)))) => {
+                ctx.count("evaluations");
+                if a.pairs != b.pairs || a.seq != b.seq || a.node_id != b.node_id || !a.verify {
+                    ctx.violate("C08", "pairs-differ-from-model", "Enr::empty", || format!("{}: Enr::empty differs from the default builder's record", KK::name()), || json!({"kind": "note", "what": "Enr::empty", "kt": KK::name()}));
+                }
+            }
+            Ok(_) => ctx.violate("C08", "error-without-cause", "Enr::empty", || format!("{}: Enr::empty failed", KK::name()), || json!({"kind": "note", "what": "Enr::empty", "kt": KK::name()})),
+            Err(p) => ctx.violate("C03", "panic", &format!("Enr::empty/{}", crate::util::panic_sig(&p)), || p.clone(), || json!({"kind": "note", "what": "Enr::empty", "kt": KK::name()})),
+        }
         let r = crate::util::guard(|| {
             let mut b = Enr::<KK::K>::builder();
             b.udp4(7).add_value("x", &3u8);
